@@ -134,6 +134,9 @@ def run_shard(spec, emit):
 
     tier, seed, shard = spec["tier"], spec["seed"], spec["shard"]
     rng = random.Random(f"{seed}:C09:{shard}")
+    if shard % 4 == 1 or tier == "thorough":
+        for _ in range(1 if tier == "quick" else 3):
+            cli_part(rng, emit, tier, seed + shard)
     n_cases = 150 if tier == "quick" else 1500
     deadline = time.monotonic() + (80 if tier == "quick" else 300)
     samples = 0
@@ -243,6 +246,115 @@ def run_shard(spec, emit):
                 emit.viol(classify(desc, a, b, "body"), f"{a['body'][:100]!r} vs {b['body'][:100]!r}", context)
             if comparable_headers(a) != comparable_headers(b):
                 emit.viol(classify(desc, a, b, "headers"), f"{comparable_headers(a)} vs {comparable_headers(b)}"[:400], context)
+
+
+def printed_commands(stdout):
+    """The curl commands as the report shows them: from a line that starts the command to the point where the shell
+    quoting is balanced again (a quoted body may span several lines). Only the indentation of the command's first
+    line belongs to the report's layout."""
+    import shlex
+
+    lines = stdout.split("\n")  # (a multipart body has CRLF line ends: the carriage returns are part of the command)
+    out = []
+    i = 0
+    while i < len(lines):
+        if lines[i].lstrip().startswith("curl -X ") and lines[i].startswith("    "):
+            command = lines[i][4:]
+            j = i
+            while True:
+                try:
+                    shlex.split(command)
+                    break
+                except ValueError:
+                    j += 1
+                    if j >= len(lines) or j - i > 60:
+                        break
+                    command += "\n" + lines[j]
+            out.append(command)
+            i = j
+        i += 1
+    return out
+
+
+def cli_part(rng, emit, tier, seed):
+    """The commands a real `st run` PRINTS for failures (all phases, user headers) are executed and compared with the
+    failing requests the API received during the run."""
+    import copy
+
+    from vmon.gen import docs
+    from vmon.instr import engine
+
+    ok = {"200": {"description": "ok", "content": {"application/json": {"schema": {"type": "object"}}}}}
+    doc = docs.doc_two_linked()
+    doc["paths"]["/notes"] = {
+        "post": {
+            "operationId": "postNote",
+            "requestBody": {"required": True, "content": {"text/plain": {"schema": {"type": "string", "enum": ["line1\nline2 'q'", "one\n\nthree $HOME", "tail\n"]}}}},
+            "responses": copy.deepcopy(ok),
+        }
+    }
+    doc["paths"]["/upload"] = {
+        "post": {
+            "operationId": "upload",
+            "requestBody": {"required": True, "content": {"multipart/form-data": {"schema": {"type": "object", "properties": {"f": {"type": "string", "enum": ["a b", "it's"]}, "g": {"type": "integer", "minimum": 0, "maximum": 9}}, "required": ["f", "g"], "additionalProperties": False}}}},
+            "responses": copy.deepcopy(ok),
+        }
+    }
+    extra = rng.choice(["plain", "it's $x", 'say "hi" \\ back', "a;b|c&d"])
+    rules = docs.LINK_RULES + [
+        {"when": {"method": "GET", "path_regex": "^/users/"}, "then": {"status": 500, "json": {"error": "boom"}}},
+        {"when": {"method": "POST", "path_regex": "^/notes"}, "then": {"status": 500, "json": {"error": "boom"}}},
+        {"when": {"method": "POST", "path_regex": "^/upload"}, "then": {"status": 500, "json": {"error": "boom"}}},
+    ]
+    # (failures first found in the stateful phase have their own code path: every run of the check has such runs)
+    phases = ["examples,coverage,fuzzing,stateful", "stateful", "coverage", "stateful", "fuzzing,stateful"][(seed // 4 + rng.randrange(100) * 0) % 5 if tier == "quick" else rng.randrange(5)]
+    args = ["--header", f"X-Extra: {extra}", "--header", "X-Second: 2", "--phases", phases, "--max-examples", "5", "--seed", str(seed + 3), "--generation-database", "none", "--checks", "not_a_server_error", "--output-sanitize", "false", "--mode", "positive"]
+    result = engine.run_cli(doc, args, rules=rules, timeout=150)
+    if result.hung:
+        emit.inconclusive("watchdog fired in CLI reproduction run")
+        return
+    emit.count("cli_runs")
+    commands = printed_commands(result.stdout)
+    failing = [r for r in result.test_requests() if r.get("status") == 500]
+    if not failing:
+        return
+    if not commands:
+        emit.viol("C09/no-reproduction-command-printed", f"{len(failing)} failing requests, no curl command in the report", {"args": args})
+        return
+    with RecordingServer(Script()) as server:
+        for command in commands[:12]:
+            # the command targets the server of the run, which is gone: same command, this server's address
+            target = re.sub(r"http://127\.0\.0\.1:\d+", server.url, command)
+            before = len(server.log)
+            try:
+                proc = subprocess.run(["sh", "-c", target + " -s -o /dev/null --max-time 10"], capture_output=True, timeout=30, cwd="/")
+            except subprocess.TimeoutExpired:
+                emit.count("curl_timeouts")
+                continue
+            emit.count("printed_commands_executed")
+            context = {"command": command, "phases": phases, "curl_stderr": proc.stderr.decode("latin-1")[:200]}
+            log = server.snapshot()
+            if len(log) <= before:
+                emit.viol("C09/printed-command-sent-no-request", f"curl exit {proc.returncode}: {proc.stderr.decode('latin-1')[:120]}", context)
+                continue
+            b = log[-1]
+            emit.case(sig=f"printed|{b['method']}|{b['raw_path']}|{b['body'][:40]}")
+
+            def same(a):
+                if a["method"] != b["method"] or a["raw_path"] != b["raw_path"]:
+                    return False
+                ma, mb = multipart_view(a), multipart_view(b)
+                if ma is not None or mb is not None:
+                    if ma is None or mb is None or "error" in ma or "error" in mb or ma["parts"] != mb["parts"]:
+                        return False
+                    strip = lambda rec: [(k, re.sub(r"boundary=[^;]+", "boundary=B", v) if k == "content-type" else v) for k, v in comparable_headers(rec)]
+                    return strip(a) == strip(b)
+                return a["body"] == b["body"] and comparable_headers(a) == comparable_headers(b)
+
+            if not any(same(a) for a in failing):
+                candidates = [a for a in failing if a["method"] == b["method"] and a["raw_path"] == b["raw_path"]]
+                detail = f"reproduced headers {comparable_headers(b)} body {b['body'][:80]!r}; " + (f"closest original: headers {comparable_headers(candidates[0])} body {candidates[0]['body'][:80]!r}" if candidates else "no failing original with this method and URL")
+                emit.viol("C09/printed-command-differs-from-every-failing-request", detail[:500], context)
 
 
 def replay(case):
